@@ -231,6 +231,33 @@ def run(eng: Engine, ck: Check):
     st = eng.func(USERM, f'{UTM}.stop')
     cancels = {unparse(x.func.value).split('.')[-1] for x in calls_on(st.node, 'cancel')}
     loops = [n for n in walk_local(st.node) if isinstance(n, ast.For) and '_tracked_users' in unparse(n.iter)]
+    if not ({'task', 'retry_task'} <= cancels and len(loops) == 1):
+        # the same as a pipeline: the tasks of every entry are collected first (flattened pairs, empty slots dropped) and cancelled in one loop
+        def slots(e: ast.AST, depth=0):
+            """attribute names whose values make up the elements of `e`, when `e` ranges over every entry of the table; else None"""
+            if depth > 6:
+                return None
+            if isinstance(e, ast.Name):
+                e2 = expand_aliases(st, e, 1)
+                return None if isinstance(e2, ast.Name) else slots(e2, depth + 1)
+            if isinstance(e, ast.Call) and unparse(e.func) in ('chain.from_iterable', 'itertools.chain.from_iterable', 'list', 'tuple') and len(e.args) == 1 and not e.keywords:
+                return slots(e.args[0], depth + 1)
+            if isinstance(e, (ast.ListComp, ast.GeneratorExp)) and len(e.generators) == 1 and isinstance(e.generators[0].target, ast.Name):
+                g_ = e.generators[0]
+                t_ = g_.target.id
+                if isinstance(e.elt, ast.Name) and e.elt.id == t_ and all(isinstance(i_, ast.Name) and i_.id == t_ for i_ in g_.ifs):
+                    return slots(g_.iter, depth + 1)        # keeps every non-empty element
+                if isinstance(e.elt, ast.Tuple) and not g_.ifs and '_tracked_users' in unparse(g_.iter) and \
+                        all(isinstance(x_, ast.Attribute) and isinstance(x_.value, ast.Name) and x_.value.id == t_ for x_ in e.elt.elts):
+                    return {x_.attr for x_ in e.elt.elts}
+            return None
+        for x in calls_on(st.node, 'cancel'):
+            if isinstance(x.func.value, ast.Name) and not eng.guards_at(st, x):
+                lp = next((a_ for a_ in ancestors(x) if isinstance(a_, ast.For) and isinstance(a_.target, ast.Name) and a_.target.id == x.func.value.id), None)
+                got = slots(lp.iter) if lp is not None else None
+                if got:
+                    cancels |= got
+                    loops = loops or [lp]
     ck.ob('R-C15-RESET', st, st.node, 'stop() cancels the worker and the retry timer of every tracked user', {'task', 'retry_task'} <= cancels and len(loops) == 1,
           f'cancels {sorted(cancels)}', construct='stop cancels both')
     osc = eng.func(USERM, f'{UTM}._on_state_changed')
